@@ -35,4 +35,5 @@ func init() {
 	twin("C02", "hijack-test-negated", "proxy.go",
 		"\tif session.Hijacked() {\n\t\treturn nil\n\t}\n\n\t// perform the HTTP roundtrip\n\tres, err := p.roundTrip(ctx, req)",
 		"\tif hj := session.Hijacked(); !hj {\n\t} else {\n\t\treturn nil\n\t}\n\n\t// perform the HTTP roundtrip\n\tres, err := p.roundTrip(ctx, req)")
+	mut("C02", "api-request-clears-skip", "context.go", "\tctx.apiRequest = true\n", "\tctx.apiRequest = true\n\tctx.skipRoundTrip = false\n", "C02.R5", "does not wipe")
 }
